@@ -241,7 +241,7 @@ def phase_trace(tier, seed):
                 pred=cluster_label_assignment.predict_cluster_labels, stats=cluster_maintenance.update_all_cluster_statistics)
 
     def opt(model, data, pool):
-        trace['rounds'].append(dict(labels=list(model.point_labels), tasks=[], data=data, biased=model.arguments.biased_covariance,
+        trace['rounds'].append(dict(labels=list(model.point_labels), tasks=[], data=data,
                                     members=[list(c.member_points) for c in model.clusters]))
         trace['order'].append('optimise')
         return orig['opt'](model, data, pool)
@@ -257,6 +257,7 @@ def phase_trace(tier, seed):
 
     def pred(model, data):
         trace['order'].append('relabel')
+        trace['scored_mrfs'] = [np.array(c.train_inverse, copy=True) for c in model.clusters]
         out = orig['pred'](model, data)
         trace['predicted'].append(list(out.point_labels))
         return out
@@ -277,11 +278,11 @@ def phase_trace(tier, seed):
         sensors, w, k = int(rng.integers(1, 3)), int(rng.integers(1, 4)), int(rng.integers(2, 6))
         configs.append(dict(rows=int(rng.integers(60, 130)), sensors=sensors, w=w, k=k,
                             beta=float(rng.choice([0.0, 2.0, 25.0, 400.0, 1e6])), limit=int(rng.choice([1, 2, 3, 6, 10])),
-                            biased=bool(i % 2), m=int(rng.integers(2, 6)),
+                            biased=bool(i % 2), m=int(rng.integers(2, 6)), eps=float(rng.choice([0.0, 0.0, 1e-3, 0.05, 0.3])), scale=float(rng.choice([1.0, 1.0, 10.0, 100.0])),
                             lam=(0.11 if i % 3 else 'matrix')))
     try:
         for c in configs:
-            data = synthetic(rng, c['rows'], c['sensors'], regimes=int(rng.integers(1, 4)))
+            data = synthetic(rng, c['rows'], c['sensors'], regimes=int(rng.integers(1, 4)), scale=c['scale'])
             nw = c['sensors'] * c['w']
             lam = np.full((nw, nw), 0.07) if c['lam'] == 'matrix' else c['lam']
             trace.clear()
@@ -290,7 +291,8 @@ def phase_trace(tier, seed):
             np.random.seed(seed)
             try:
                 r = quiet(fast_ticc.ticc_labels, data, window_size=c['w'], num_clusters=c['k'], label_switching_cost=c['beta'],
-                          iteration_limit=c['limit'], min_cluster_size=c['m'], biased_covariance=c['biased'], sparsity_weight=lam)
+                          iteration_limit=c['limit'], min_cluster_size=c['m'], biased_covariance=c['biased'], sparsity_weight=lam,
+                          min_meaningful_covariance=c['eps'])
             except Exception:
                 incomplete += 1
                 continue            # run did not complete: outside the quantifier of every property checked here
@@ -310,6 +312,13 @@ def phase_trace(tier, seed):
             f = (c['w'] - 1) // 2
             if trace['predicted'] and list(r.point_labels[f:f + len(trace['predicted'][-1])]) != trace['predicted'][-1]:
                 bad.append(('C09 returned labels are not those of the final relabelling', ''))
+            # C09: the MRFs handed back are the ones the final relabelling scored the points against; C03: the floor
+            sm = trace.get('scored_mrfs')
+            if sm is not None and (len(sm) != len(r.markov_random_fields) or
+                                   any(not np.array_equal(a, b) for a, b in zip(sm, r.markov_random_fields))):
+                bad.append(('C09 returned MRFs are not the ones the final relabelling was scored against', ''))
+            if c['eps'] > 0 and any(np.any((np.abs(mm) > 0) & (np.abs(mm) < c['eps'])) for mm in r.markov_random_fields):
+                bad.append(('C03 a returned MRF entry has magnitude strictly between 0 and the requested floor', 'eps=%g' % c['eps']))
             for n, rd in enumerate(rounds):
                 lab = np.array(rd['labels'])
                 if len(rd['tasks']) != c['k']:
@@ -321,11 +330,11 @@ def phase_trace(tier, seed):
                         bad.append(('C13 member list is not the set of points carrying the label', 'round %d cluster %d' % (n + 1, kk)))
                     if rows.shape[0] < 2:
                         continue
-                    want = np.atleast_2d(np.cov(rows, rowvar=False, bias=rd['biased']))
+                    want = np.atleast_2d(np.cov(rows, rowvar=False, bias=c['biased']))      # the estimator the USER asked for
                     tol = 1e-9 * max(1.0, float(np.max(np.abs(want))))
                     if t['cov'].shape != want.shape or float(np.max(np.abs(t['cov'] - want))) > tol:
                         bad.append(('C12 covariance handed to the optimiser is not the requested covariance of the windows labelled k',
-                                    'round %d cluster %d (%s estimator, %d windows)' % (n + 1, kk, 'biased' if rd['biased'] else 'unbiased', rows.shape[0])))
+                                    'round %d cluster %d (%s estimator requested, %d windows)' % (n + 1, kk, 'biased' if c['biased'] else 'unbiased', rows.shape[0])))
                     if float(np.max(np.abs(np.ravel(t['mean']) - rows.mean(axis=0)))) > 1e-9 * max(1.0, float(np.max(np.abs(rows)))):
                         bad.append(('C12 mean is not the mean of the windows labelled k', 'round %d cluster %d' % (n + 1, kk)))
                     if t['W'] != c['w'] or t['N'] != c['sensors'] or not np.array_equal(np.asarray(t['lam']), np.asarray(lam)):
@@ -357,7 +366,68 @@ def phase_trace(tier, seed):
         cluster_maintenance.update_all_cluster_statistics = orig['stats']
     return dict(kind='bounded', name='phase_trace', cases=cases, runs_that_did_not_complete=incomplete, failing=fails,
                 bound='%d completed synthetic runs (<=130 rows, <=2 sensors, W<=3, K<=5, beta in {0,2,25,400,1e6}, iteration_limit in {1,2,3,6,10}, '
-                      'both covariance estimators, scalar and matrix lambda) with an in-process pool; phases observed through wrappers, library code untouched' % cases)
+                      'both covariance estimators, scalar and matrix lambda, covariance floor in {0,1e-3,0.05,0.3}) with an in-process pool; phases observed through wrappers, library code untouched' % cases)
+
+
+
+# ------------------------------------------------------------------ C18: equivalent forms of the hyper-parameters, end to end
+def forms_equivalence(tier, seed):
+    import fast_ticc
+    rng = np.random.default_rng(seed)
+    fails, cases = [], 0
+
+    def run(fn, data, **kw):
+        random.seed(seed)
+        np.random.seed(seed)
+        return quiet(fn, data, **kw)
+
+    def same(a, b, joint):
+        la, lb = a.point_labels, b.point_labels
+        if la != lb:
+            return 'labels differ'
+        if abs(a.label_assignment_cost - b.label_assignment_cost) > 1e-9 * max(1.0, abs(a.label_assignment_cost)):
+            return 'label assignment cost differs (%.10g vs %.10g)' % (a.label_assignment_cost, b.label_assignment_cost)
+        for x, y in zip(a.markov_random_fields, b.markov_random_fields):
+            if not np.allclose(x, y, rtol=1e-8, atol=1e-10):
+                return 'MRFs differ'
+        return None
+    n_rounds = 2 if tier == 'quick' else 8
+    for rnd in range(n_rounds):
+        sensors, w = int(rng.integers(1, 3)), int(rng.integers(1, 4))
+        nw = sensors * w
+        base = dict(window_size=w, num_clusters=int(rng.integers(2, 4)), iteration_limit=3, min_cluster_size=3)
+        beta = float(rng.choice([0.0, 2.0, 7.0, 120.0]))
+        lam = float(rng.choice([0.05, 0.11, 1.0]))
+        single = synthetic(rng, int(rng.integers(60, 110)), sensors)
+        series = [synthetic(rng, int(rng.integers(30, 70)), sensors) for _ in range(int(rng.integers(2, 4)))]
+        # a short last series so that a switch at a series boundary matters
+        series.append(synthetic(rng, w + 5, sensors, regimes=1) + 2.5)
+        n_single = single.shape[0] - w + 1
+        n_joint = sum(s_.shape[0] - w + 1 for s_ in series)
+        variants = [('beta scalar vs filled vector', dict(label_switching_cost=beta, sparsity_weight=lam),
+                     dict(label_switching_cost=lambda n: np.full(n, beta), sparsity_weight=lam)),
+                    ('lambda scalar vs filled matrix', dict(label_switching_cost=beta, sparsity_weight=lam),
+                     dict(label_switching_cost=beta, sparsity_weight=np.full((nw, nw), lam))),
+                    ('lambda int vs float vs numpy scalar', dict(label_switching_cost=beta, sparsity_weight=1),
+                     dict(label_switching_cost=beta, sparsity_weight=np.float64(1.0))),
+                    ('beta int vs float', dict(label_switching_cost=int(beta), sparsity_weight=lam),
+                     dict(label_switching_cost=float(int(beta)), sparsity_weight=lam))]
+        for label, kw_a, kw_b in variants:
+            for fn, data, n, joint in ((fast_ticc.ticc_labels, single, n_single, False), (fast_ticc.ticc_joint_labels, series, n_joint, True)):
+                ka = {k: (v(n) if callable(v) else v) for k, v in kw_a.items()}
+                kb = {k: (v(n) if callable(v) else v) for k, v in kw_b.items()}
+                try:
+                    ra = run(fn, data, **base, **ka)
+                    rb = run(fn, data, **base, **kb)
+                except (AssertionError, RuntimeError, np.linalg.LinAlgError):
+                    continue
+                cases += 1
+                why = same(ra, rb, joint)
+                if why:
+                    fails.append(dict(what='forms:%s give different results (%s front end)' % (label, 'joint' if joint else 'single'), detail=why,
+                                      input=dict(seed=seed, round=rnd, beta=beta, lam=lam, **base)))
+    return dict(kind='bounded', name='forms_equivalence', cases=cases, failing=fails,
+                bound='%d pairs of complete runs (both front ends; <=110 rows, <=2 sensors, W<=3, K<=3, 3 rounds) comparing labels exactly, cost to 1e-9 and MRFs to 1e-8' % cases)
 
 
 # ------------------------------------------------------------------ C14: reproducibility / pool size
@@ -423,6 +493,18 @@ th = np.array([np.eye(nw) * (i + 1) + 0.1 for i in range(k)])
 tab = lk.all_points_all_clusters_log_likelihood_fast(w, k, rng.standard_normal((k, nw)), th,
         np.array([np.linalg.slogdet(x)[1] for x in th]), rng.standard_normal((t, nw)))
 out.append(np.round(tab, 9).tolist())
+# complete runs on float64, float32 and integer series: every mode must produce the same labelling (or all must refuse)
+import fast_ticc, random, io, contextlib
+base = np.vstack([rng.standard_normal((40, 2)), rng.standard_normal((40, 2)) * 0.5 + 3.0])
+for dt in (np.float64, np.float32, np.int64):
+    series = (base * (8 if dt is np.int64 else 1)).astype(dt)
+    random.seed(7); np.random.seed(7)
+    try:
+        with contextlib.redirect_stdout(io.StringIO()):
+            r = fast_ticc.ticc_labels(series, window_size=2, num_clusters=2, label_switching_cost=5, iteration_limit=2, min_cluster_size=3)
+        out.append([str(np.dtype(dt)), [int(x) for x in r.point_labels], round(float(r.label_assignment_cost), 5)])
+    except Exception as e:
+        out.append([str(np.dtype(dt)), 'raised ' + type(e).__name__])
 print(json.dumps(out))
 ''' % (REPO_SRC, seed)
     res = {}
@@ -436,7 +518,7 @@ print(json.dumps(out))
     if len(set(res.values())) != 1:
         fails.append(dict(what='jit-differential:modes disagree', detail=json.dumps(res)[:800], input=dict(seed=seed)))
     return dict(kind='bounded', name='jit_differential', cases=len(res), failing=fails,
-                bound='labelling kernel on 4 shapes x 3 beta forms and one likelihood table, in 3 separate processes (interpreted, JIT, JIT with 4 threads)')
+                bound='labelling kernel on 4 shapes x 3 beta forms, one likelihood table and three complete runs (float64, float32, int64 series), in 3 separate processes (interpreted, JIT, JIT with 4 threads)')
 
 
 # ------------------------------------------------------------------ C19: read-only inputs
@@ -478,8 +560,57 @@ def readonly_inputs(tier, seed):
         fails.append(dict(what='readonly:call failed on read-only input', detail=repr(e)[:300], input=dict(seed=seed)))
     if not np.array_equal(data, snap):
         fails.append(dict(what='readonly:single front end modified its input', detail='', input=dict(seed=seed)))
+
+    # writable inputs, ordinary and degenerate (non-finite entries, vector-valued hyper-parameters, integer data): whether
+    # the call returns or raises, every caller-owned array must be byte-identical afterwards
+    def same_bytes(a, b):
+        return a.dtype == b.dtype and a.shape == b.shape and a.tobytes() == b.tobytes()
+
+    def guarded(label, fn, arrays, *a, **k):
+        nonlocal cases
+        snaps = [x.copy() for x in arrays]
+        try:
+            random.seed(seed)
+            np.random.seed(seed)
+            quiet(fn, *a, **k)
+        except Exception:
+            pass
+        cases += 1
+        for x, s0 in zip(arrays, snaps):
+            if not same_bytes(x, s0):
+                fails.append(dict(what='readonly:caller-owned array modified', detail=label, input=dict(seed=seed, call=label)))
+                break
+    kw = dict(window_size=2, num_clusters=2, iteration_limit=2, min_cluster_size=3)
+    for order in ('C', 'F'):
+        for bad in (np.nan, np.inf):
+            S = np.array(spd(rng, 4, 0.5, 2.0), order=order)
+            S[1, 2] = S[2, 1] = bad
+            guarded('admm_optimize_theta(covariance with a %s entry, %s order)' % (bad, order), A.admm_optimize_theta, [S], S, 0.1, 2, 2)
+    S = np.full((4, 4), np.nan)
+    guarded('admm_optimize_theta(all-NaN covariance of a single-point cluster)', A.admm_optimize_theta, [S], S, 0.1, 2, 2)
+    S, lam = spd(rng, 4, 0.5, 2.0), np.full((4, 4), 0.1)
+    guarded('admm_optimize_theta(matrix lambda)', A.admm_optimize_theta, [S, lam], S, lam, 2, 2)
+    d1, d2 = synthetic(rng, 60, 2), synthetic(rng, 45, 2)
+    beta_vec = np.full(d1.shape[0] - 1 + d2.shape[0] - 1, 4.0)
+    guarded('ticc_joint_labels(vector switching cost)', fast_ticc.ticc_joint_labels, [d1, d2, beta_vec], [d1, d2], label_switching_cost=beta_vec, **kw)
+    d3 = synthetic(rng, 70, 2)
+    beta1 = np.full(d3.shape[0] - 1, 4.0)
+    lam4 = np.full((4, 4), 0.11)
+    guarded('ticc_labels(vector switching cost, matrix lambda)', fast_ticc.ticc_labels, [d3, beta1, lam4], d3, label_switching_cost=beta1,
+            sparsity_weight=lam4, **kw)
+    d4 = synthetic(rng, 70, 2)
+    d4[10, 1] = np.nan
+    guarded('ticc_labels(data with a NaN)', fast_ticc.ticc_labels, [d4], d4, label_switching_cost=3, **kw)
+    d5 = (synthetic(rng, 70, 2) * 10).astype(np.int64)
+    guarded('ticc_labels(integer data)', fast_ticc.ticc_labels, [d5], d5, label_switching_cost=3, **kw)
+    cost = rng.standard_normal((6, 3))
+    cost[2, 1] = np.inf
+    bvec = np.full(6, 1.0)
+    guarded('assign_point_cluster_labels(inf cost, vector beta)', cla.assign_point_cluster_labels, [cost, bvec], cost, bvec)
     return dict(kind='bounded', name='readonly_inputs', cases=cases, failing=fails,
-                bound='both front ends, the optimiser entry point (matrix lambda) and the kernel (vector beta) called once with writeable=False inputs (C and F order)')
+                bound='both front ends, the optimiser entry point (matrix lambda) and the kernel (vector beta) called once with writeable=False '
+                      'inputs (C and F order); 11 further calls with writable ordinary and degenerate inputs (NaN/inf entries, vector beta, matrix '
+                      'lambda, integer data) compared byte for byte afterwards, whether the call returned or raised')
 
 
 # ------------------------------------------------------------------ C20: fault injection
@@ -567,7 +698,7 @@ def fault_injection(tier, seed):
 
 
 CHECKS = dict(admm=admm, end_to_end=end_to_end, reproducibility=reproducibility, jit_differential=jit_differential,
-              readonly_inputs=readonly_inputs, fault_injection=fault_injection, phase_trace=phase_trace)
+              readonly_inputs=readonly_inputs, fault_injection=fault_injection, phase_trace=phase_trace, forms_equivalence=forms_equivalence)
 
 if __name__ == '__main__':
     name, tier, seed = sys.argv[1], sys.argv[2], int(sys.argv[3])
